@@ -105,6 +105,23 @@ namespace nmtools::index
         }
     }
 
+    /**
+     * @brief Number of elements selected by a range slice: ceil(range / step),
+     * computed in integer arithmetic (float is not exact for range > 2^24).
+     *
+     * @tparam size_type result type
+     * @param range     non-negative distance covered by the slice (see compute_range)
+     * @param step      absolute value of the step (see compute_step)
+     * @return constexpr auto
+     */
+    template <typename size_type, typename range_t, typename step_t>
+    constexpr inline auto compute_len(range_t range, step_t step)
+    {
+        auto m_range = static_cast<size_type>(range);
+        auto m_step  = static_cast<size_type>(step);
+        return static_cast<size_type>((m_range / m_step) + ((m_range % m_step) ? 1 : 0));
+    }
+
     template <typename indices_t, typename si_t, typename start_t, typename stop_t, typename step_t, typename i_i_t>
     constexpr inline auto compute_index(const indices_t& indices, si_t si, start_t start_, stop_t stop_, step_t step_, i_i_t i_i)
     {
@@ -310,7 +327,7 @@ namespace nmtools::index
             }();
             auto s = compute_range(shape_i,start,stop,step);
             auto step_ = compute_step(step);
-            return static_cast<size_type>(math::constexpr_ceil(static_cast<float>(s) / step_));
+            return compute_len<size_type>(s,step_);
         };
 
         auto res = result_t {};
@@ -828,8 +845,8 @@ namespace nmtools::index
 
                 // finally the resulting shape for corresponding indices
                 // is simply the range divided by the step
-                // use constexpr_ceil to allow clang compile this
-                at(res,r_i++) = static_cast<size_type>(math::constexpr_ceil(static_cast<float>(s) / step));
+                // (integer ceil, float is not exact for large extents)
+                at(res,r_i++) = compute_len<size_type>(s,step);
             } else /* if constexpr (meta::is_index_v<slice_t>) */ {
                 // only reduce the dimension,
                 // doesn't contributes to shape computation
